@@ -41,64 +41,58 @@ theorem recoverSecret_correct_bn256 (dp : Bool) (f : List (Zq Share.bn256Order))
     (ht : 0 < t) (hf : f.length ≤ t) (hn : n < 2 ^ 63)
     (shares : List (Option (PriShare (Zq Share.bn256Order))))
     (hval : ∀ iv ∈ shares.filterMap (usablePri n), iv.2 = priEval f iv.1)
-    (hcnt : t ≤ (shares.filterMap (usablePri n)).length)
-    (hdist : (((shares.filterMap (usablePri n)).take t).map (·.1)).Nodup) :
+    (hcnt : t ≤ (idxPri n shares).card) :
     recoverSecret dp shares t n = .ok (f.headD 0) :=
   Props.C09.recoverSecret_correct_driver Share.bn256Order dp f t n ht hf (go_int_below_orders n hn).1
-    shares hval hcnt hdist
+    shares hval hcnt
 
 /-- **RecoverSecret on the ed25519 scalars** -/
 theorem recoverSecret_correct_ed25519 (dp : Bool) (f : List (Zq Share.ed25519Order)) (t n : Nat)
     (ht : 0 < t) (hf : f.length ≤ t) (hn : n < 2 ^ 63)
     (shares : List (Option (PriShare (Zq Share.ed25519Order))))
     (hval : ∀ iv ∈ shares.filterMap (usablePri n), iv.2 = priEval f iv.1)
-    (hcnt : t ≤ (shares.filterMap (usablePri n)).length)
-    (hdist : (((shares.filterMap (usablePri n)).take t).map (·.1)).Nodup) :
+    (hcnt : t ≤ (idxPri n shares).card) :
     recoverSecret dp shares t n = .ok (f.headD 0) :=
   Props.C09.recoverSecret_correct_driver Share.ed25519Order dp f t n ht hf (go_int_below_orders n hn).2
-    shares hval hcnt hdist
+    shares hval hcnt
 
 /-- **RecoverPriPoly** on either scalar type -/
 theorem recoverPriPoly_correct_bn256 (g : Nat) (f : List (Zq Share.bn256Order)) (t n : Nat)
     (ht : 0 < t) (hf : f.length = t) (hn : n < 2 ^ 63)
     (shares : List (Option (PriShare (Zq Share.bn256Order))))
     (hval : ∀ iv ∈ shares.filterMap (usablePri n), iv.2 = priEval f iv.1)
-    (hcnt : t ≤ (shares.filterMap (usablePri n)).length)
-    (hdist : (((shares.filterMap (usablePri n)).take t).map (·.1)).Nodup) :
+    (hcnt : t ≤ (idxPri n shares).card) :
     recoverPriPoly g shares t n = .ok ⟨g, f⟩ :=
   Props.C09.recoverPriPoly_correct g f t n ht hf (charGt_bn256 n (go_int_below_orders n hn).1)
-    shares hval hcnt hdist
+    shares hval hcnt
 
 theorem recoverPriPoly_correct_ed25519 (g : Nat) (f : List (Zq Share.ed25519Order)) (t n : Nat)
     (ht : 0 < t) (hf : f.length = t) (hn : n < 2 ^ 63)
     (shares : List (Option (PriShare (Zq Share.ed25519Order))))
     (hval : ∀ iv ∈ shares.filterMap (usablePri n), iv.2 = priEval f iv.1)
-    (hcnt : t ≤ (shares.filterMap (usablePri n)).length)
-    (hdist : (((shares.filterMap (usablePri n)).take t).map (·.1)).Nodup) :
+    (hcnt : t ≤ (idxPri n shares).card) :
     recoverPriPoly g shares t n = .ok ⟨g, f⟩ :=
   Props.C09.recoverPriPoly_correct g f t n ht hf (charGt_ed25519 n (go_int_below_orders n hn).2)
-    shares hval hcnt hdist
+    shares hval hcnt
 
 /-- **RecoverCommit** in the driver's discrete-log points, bn256 order -/
 theorem recoverCommit_correct_bn256 (dp : Bool) (f : List (Zq Share.bn256Order))
     (B : Zq Share.bn256Order) (t n : Nat) (hf : f.length ≤ t) (hn : n < 2 ^ 63)
     (shares : List (Option (PubShare (Zq Share.bn256Order))))
     (hval : ∀ iv ∈ shares.filterMap (usablePub n), iv.2 = priEval f iv.1 • B)
-    (hcnt : t ≤ (shares.filterMap (usablePub n)).length)
-    (hdist : ((shares.filterMap (usablePub n)).map (·.1)).Nodup) :
+    (hcnt : t ≤ (idxPub n shares).card) :
     recoverCommit (S := Zq Share.bn256Order) dp shares t n = .ok (f.headD 0 • B) :=
   Props.C09.recoverCommit_correct_driver Share.bn256Order dp f B t n hf (go_int_below_orders n hn).1
-    shares hval hcnt hdist
+    shares hval hcnt
 
 theorem recoverCommit_correct_ed25519 (dp : Bool) (f : List (Zq Share.ed25519Order))
     (B : Zq Share.ed25519Order) (t n : Nat) (hf : f.length ≤ t) (hn : n < 2 ^ 63)
     (shares : List (Option (PubShare (Zq Share.ed25519Order))))
     (hval : ∀ iv ∈ shares.filterMap (usablePub n), iv.2 = priEval f iv.1 • B)
-    (hcnt : t ≤ (shares.filterMap (usablePub n)).length)
-    (hdist : ((shares.filterMap (usablePub n)).map (·.1)).Nodup) :
+    (hcnt : t ≤ (idxPub n shares).card) :
     recoverCommit (S := Zq Share.ed25519Order) dp shares t n = .ok (f.headD 0 • B) :=
   Props.C09.recoverCommit_correct_driver Share.ed25519Order dp f B t n hf (go_int_below_orders n hn).2
-    shares hval hcnt hdist
+    shares hval hcnt
 
 /-- the same for an ARBITRARY module over the bn256 scalars (e.g. the real G1 once it is known to be
 one): only the field side is closed here -/
@@ -106,11 +100,26 @@ theorem recoverCommit_correct_bn256_module {G : Type} [AddCommGroup G] [Module (
     [DecidableEq G] (dp : Bool) (f : List (Zq Share.bn256Order)) (B : G) (t n : Nat)
     (hf : f.length ≤ t) (hn : n < 2 ^ 63) (shares : List (Option (PubShare G)))
     (hval : ∀ iv ∈ shares.filterMap (usablePub n), iv.2 = priEval f iv.1 • B)
-    (hcnt : t ≤ (shares.filterMap (usablePub n)).length)
-    (hdist : ((shares.filterMap (usablePub n)).map (·.1)).Nodup) :
+    (hcnt : t ≤ (idxPub n shares).card) :
     recoverCommit (S := Zq Share.bn256Order) dp shares t n = .ok (f.headD 0 • B) :=
   Props.C09.recoverCommit_correct dp f B t n hf (charGt_bn256 n (go_int_below_orders n hn).1)
-    shares hval hcnt hdist
+    shares hval hcnt
+
+/-- **no recovery panics on the real bn256 scalars** (the scalar type whose `Div` dereferences a
+nil `ModInverse`): every slice, every value, every `t`, every `n` a Go `int` can hold -/
+theorem recover_never_panics_bn256 (dp : Bool) (g t n : Nat) (hn : n < 2 ^ 63)
+    (shares : List (Option (PriShare (Zq Share.bn256Order))))
+    (pubs : List (Option (PubShare (Zq Share.bn256Order)))) (s : Site) :
+    recoverSecret dp shares t n ≠ .panic s ∧ recoverPriPoly g shares t n ≠ .panic s
+      ∧ recoverCommit (S := Zq Share.bn256Order) dp pubs t n ≠ .panic s :=
+  Props.C09.recover_never_panics_driver Share.bn256Order dp g t n (go_int_below_orders n hn).1
+    shares pubs s
+
+/-- fewer than `t` distinct usable indices ⇒ error, bn256 scalars -/
+theorem recover_too_few_bn256 (dp : Bool) (g t n : Nat)
+    (shares : List (Option (PriShare (Zq Share.bn256Order)))) (hfew : (idxPri n shares).card < t) :
+    recoverSecret dp shares t n = .err .few ∧ recoverPriPoly g shares t n = .err .few :=
+  Props.C09.recover_too_few dp g t n shares hfew
 
 /-- no share index evaluates at zero and distinct indices are distinct points — bn256 scalars,
 every index a Go `int` can hold -/
@@ -132,14 +141,24 @@ theorem check_iff_bn256 (p : PriPoly (Zq Share.bn256Order)) (b : Zq Share.bn256O
   check_iff_dlog Share.bn256Order p b hb i v
 
 /-! ### non-vacuity: a 2-of-3 sharing of the secret `r − 1` over the REAL bn256 scalar field, evaluated
-by the kernel; shares of members 2 and 0 with junk in between -/
+by the kernel; shares of members 2 (twice) and 0 with junk in between -/
 
 private def fr : List (Zq Share.bn256Order) := [-1, 5]
 
 example : recoverSecret true (S := Zq Share.bn256Order)
-    [some ⟨2, some (priEval fr 2)⟩, none, some ⟨7, some 1⟩, some ⟨0, some (priEval fr 0)⟩] 2 3 = .ok (-1) :=
+    [some ⟨2, some (priEval fr 2)⟩, none, some ⟨2, some (priEval fr 2)⟩, some ⟨7, some 1⟩,
+     some ⟨0, some (priEval fr 0)⟩] 2 3 = .ok (-1) :=
   recoverSecret_correct_bn256 true fr 2 3 (by decide) (by decide) (by decide) _
-    (by decide +kernel) (by decide +kernel) (by decide +kernel)
+    (by decide +kernel) (by decide +kernel)
+
+/-- the input of the repaired defect on the real scalar field: `[s₂, s₂]`, `t = 2` -/
+example : recoverSecret true (S := Zq Share.bn256Order)
+    [some ⟨2, some (priEval fr 2)⟩, some ⟨2, some (priEval fr 2)⟩] 2 3 = .err .few :=
+  (recover_too_few_bn256 true 0 2 3 _ (by decide +kernel)).1
+
+example : recoverSecret true (S := Zq Share.bn256Order)
+    [some ⟨2, some 5⟩, some ⟨2, some 6⟩, some ⟨1, some 0⟩] 2 3 ≠ .panic .div0 :=
+  (recover_never_panics_bn256 true 0 2 3 (by decide) _ [] .div0).1
 
 example : CharGt (Zq Share.ed25519Order) 1000 := charGt_ed25519 1000 (by decide)
 
